@@ -272,6 +272,7 @@ type group struct {
 	expect   [][]byte   // [msg] Sign(sum of dealer secrets, m)
 	geOrder  int
 	zeroRes  int           // members whose id is 0 mod the order (id == order)
+	sumClass [3]int64      // members whose late-reduced share sum would end in [0,order) / [order,2^256) / [2^256,2*order)
 	gid      *groupsig.ID  // set once the group is in the joined-group storage
 	cands    []groupsig.ID // candidate list handed to the DKG context: the members plus two more (a different size)
 	setupBad []result
@@ -393,20 +394,76 @@ func setup(n, seed int, idkind string) *group {
 		}
 		g.skWant = append(g.skWant, s.Mod(s, order))
 	}
-	// canonical arrival order: keys used by the later parts
+	// canonical arrival order (aggregation iterates its pool in insertion order: start slot 0)
 	ident := idrev(n)[0]
+	var memSk []groupsig.Seckey
+	var memPub []groupsig.Pubkey
+	var memGpk groupsig.Pubkey
 	for i := 0; i < n; i++ {
-		nd, r := dkgRun(g, i, ident, nil)
+		nd, r := dkgRun(g, i, ident, fw.NewReplayChooser(nil))
 		if r.bad {
 			g.setupBad = append(g.setupBad, r)
 		}
 		if nd == nil {
 			return g
 		}
-		g.signSk = append(g.signSk, nd.SignSeckey())
-		g.memPub = append(g.memPub, *groupsig.GeneratePubkey(nd.SignSeckey()))
+		memSk = append(memSk, nd.SignSeckey())
+		memPub = append(memPub, *groupsig.GeneratePubkey(nd.SignSeckey())) // what the member announces (SignPubKeyMessage)
 		if i == 0 {
-			g.gpk = nd.GroupPubkey()
+			memGpk = nd.GroupPubkey()
+		}
+		// where the running sum of an add-then-reduce-late aggregation would end (coverage class only)
+		part := new(big.Int)
+		for j := 0; j < n-1; j++ {
+			part.Add(part, g.dealt[j][g.keys[i]].Share.GetBigInt())
+		}
+		part.Mod(part, order)
+		part.Add(part, g.dealt[n-1][g.keys[i]].Share.GetBigInt())
+		switch {
+		case part.Cmp(order) < 0:
+			g.sumClass[0]++
+		case part.Cmp(two(256)) < 0:
+			g.sumClass[1]++
+		default:
+			g.sumClass[2]++
+		}
+	}
+	// persistence: every member's key material goes through the node's joined-group store and is read
+	// back by a fresh storage object (as after a restart) before it is used by any later part
+	m0 := g.msgs[0]
+	for i := 0; i < n; i++ {
+		var re *model.JoinedGroupInfo
+		p, v, site := fw.Try(func() { re = reload(g, i, memSk[i], memGpk, memPub) })
+		tail := ":ids=" + idkind
+		if p {
+			g.setupBad = append(g.setupBad, result{bad: true, sig: "C13:panic:" + site, msg: fmt.Sprintf("panic in joined-group store/reload of member %d: %v", i, v)})
+			return g
+		}
+		if re == nil {
+			g.setupBad = append(g.setupBad, result{bad: true, sig: "C13:reload:not-found" + tail, msg: fmt.Sprintf("member %d: the stored group cannot be loaded back", i)})
+			return g
+		}
+		g.signSk = append(g.signSk, re.SignSecKey)
+		before, after := groupsig.Sign(memSk[i], m0).Serialize(), groupsig.Sign(re.SignSecKey, m0).Serialize()
+		if !bytes.Equal(before, after) && !groupsig.VerifySig(memPub[i], m0, *groupsig.DeserializeSign(after)) {
+			g.setupBad = append(g.setupBad, result{bad: true, sig: "C13:reload:share-verify" + tail,
+				msg: fmt.Sprintf("member %d (n=%d seed=%d): after store + reload of the joined group its share %x no longer verifies under the public share it announced (sign key before %x, after reload %x)", i, n, seed, after, memSk[i].GetBigInt(), re.SignSecKey.GetBigInt())})
+		}
+		if i == 0 {
+			g.gpk = re.GroupPK
+			if !bytes.Equal(re.GroupPK.Serialize(), memGpk.Serialize()) {
+				g.setupBad = append(g.setupBad, result{bad: true, sig: "C13:reload:group-key-changed" + tail,
+					msg: fmt.Sprintf("group public key %x became %x through store + reload", memGpk.Serialize(), re.GroupPK.Serialize())})
+			}
+			for j := 0; j < n; j++ {
+				pk, ok := re.GetMemberSignPK(g.ids[j])
+				if !ok || !bytes.Equal(pk.Serialize(), memPub[j].Serialize()) {
+					g.setupBad = append(g.setupBad, result{bad: true, sig: "C13:reload:public-share-changed" + tail,
+						msg: fmt.Sprintf("public share of member %d: %x became %x (found=%v) through store + reload", j, memPub[j].Serialize(), pk.Serialize(), ok)})
+					pk = memPub[j]
+				}
+				g.memPub = append(g.memPub, pk)
+			}
 		}
 	}
 	gsk := *groupsig.NewSeckeyFromBigInt(new(big.Int).Set(g.gskWant))
@@ -419,6 +476,20 @@ func setup(n, seed int, idkind string) *group {
 		g.expect = append(g.expect, groupsig.Sign(gsk, m).Serialize())
 	}
 	return g
+}
+
+// reload: member i's joined-group record (sign key, group key, member public shares) is saved by the
+// node's JoinedGroupStorage and loaded by a second storage object over the same database.  All members
+// of the harness share one process database whereas every real member has its own, so the record is
+// filed under a per-member key (GroupID is only the storage key here).
+func reload(g *group, i int, sk groupsig.Seckey, gpk groupsig.Pubkey, pubs []groupsig.Pubkey) *model.JoinedGroupInfo {
+	jg := model.NewJoindGroupInfo(sk, gpk, g.hash)
+	for j := range pubs {
+		jg.AddMemberSignPK(g.ids[j], pubs[j])
+	}
+	jg.GroupID = groupsig.DeserializeID(h256(fmt.Sprintf("c13/joined-group-store/%s/n%d/seed%d/member%d", g.idkind, g.n, g.seed, i)))
+	access.NewJoinedGroupStorage().JoinGroup(jg, g.ids[i])
+	return access.NewJoinedGroupStorage().GetJoinedGroupInfo(jg.GroupID)
 }
 
 func (g *group) ready() bool { return len(g.expect) == len(g.msgs) && len(g.signSk) == g.n }
@@ -923,7 +994,22 @@ func counterMsg(i, width int) []byte {
 // sweepRun: the full property for one message: every share verifies under its member's public
 // share, every k-subset (direct recovery and every rotation of arrival at round1's collector) gives
 // Sign(sum of dealer secrets, m), and that verifies under the group key.
-func sweepRun(g *group, m []byte) result {
+func sweepRun(g *group, m []byte) result { return sweepRunOn(g, m, combos(g.n, g.k), true) }
+
+// windows: the n threshold-size sets {i, i+1, .., i+k-1} (mod n): every member is in k of them.
+func windows(n, k int) [][]int {
+	var out [][]int
+	for i := 0; i < n; i++ {
+		var w []int
+		for t := 0; t < k; t++ {
+			w = append(w, (i+t)%n)
+		}
+		out = append(out, w)
+	}
+	return out
+}
+
+func sweepRunOn(g *group, m []byte, subsets [][]int, allRotations bool) result {
 	var r result
 	p, v, site := fw.Try(func() {
 		gsk := *groupsig.NewSeckeyFromBigInt(new(big.Int).Set(g.gskWant))
@@ -939,7 +1025,7 @@ func sweepRun(g *group, m []byte) result {
 				return
 			}
 		}
-		for _, sub := range combos(g.n, g.k) {
+		for _, sub := range subsets {
 			mp := map[string]groupsig.Signature{}
 			for _, j := range sub {
 				mp[g.keys[j]] = *groupsig.DeserializeSign(shares[j])
@@ -953,7 +1039,7 @@ func sweepRun(g *group, m []byte) result {
 					msg: fmt.Sprintf("message %x (n=%d): RecoverGroupSignature(members %v) = %x, Sign(sum of dealer secrets, m) = %x", m, g.n, sub, got, want)}
 				return
 			}
-			for rot := 0; rot < g.k; rot++ {
+			for rot := 0; rot < g.k && (allRotations || rot == 0); rot++ {
 				gen := logical.VerifNewSignGenerator(g.k)
 				var ord []int
 				for t := 0; t < g.k; t++ {
@@ -1033,6 +1119,21 @@ func execCase(g *group, k *kase, ch *fw.Chooser) result {
 		return parentRun(g, k.Cand, k.Ord, ch)
 	case "round1-fault":
 		return round1FaultRun(g, k.Ord, k.Fault, k.FMem, k.FPos)
+	case "reload-sweep":
+		var r result
+		if g.n <= 5 {
+			r = sweepRun(g, g.msgs[0])
+		} else {
+			r = sweepRunOn(g, g.msgs[0], windows(g.n, g.k), false)
+		}
+		if r.bad && len(r.sig) > len("C13:sweep:") && r.sig[:len("C13:sweep:")] == "C13:sweep:" {
+			r.sig = "C13:reload:" + r.sig[len("C13:sweep:"):]
+			r.msg = fmt.Sprintf("DKG instance n=%d seed=%d, keys stored and reloaded: ", g.n, g.seed) + r.msg
+		}
+		if !r.bad {
+			r.outcome = "reload-sweep:holds"
+		}
+		return r
 	case "round1-start":
 		return round1Run(g, k.Msg, k.Ord, ch)
 	case "gpk-collector":
@@ -1166,25 +1267,27 @@ func (netStub) SendVerifiedCast(*model.ConsensusVerifyMessage, groupsig.ID) {}
 func (netStub) AskSignPkMessage(*model.SignPubkeyReqMessage, groupsig.ID)   {}
 
 type tierParams struct {
-	ns       []int
-	seeds    int
-	supBound int  // deviation bound for the superset path (k-pick, 2 map iterations)
-	supRev   bool // supersets also inserted in reverse order
-	genBound func(n int) int
-	msgsFor  func(n, seed int) []int // message indices used for a group
-	faultNs  []int                   // group sizes of the round1 fault family
-	sweepN   int                     // message sweep: counters 0..sweepN-1 in every width
+	ns          []int
+	seeds       int
+	supBound    int  // deviation bound for the superset path (k-pick, 2 map iterations)
+	supRev      bool // supersets also inserted in reverse order
+	genBound    func(n int) int
+	msgsFor     func(n, seed int) []int // message indices used for a group
+	faultNs     []int                   // group sizes of the round1 fault family
+	reloadNs    []int                   // persistence sweep: group sizes
+	reloadSeeds int                     // and dealer seed sets per size
+	sweepN      int                     // message sweep: counters 0..sweepN-1 in every width
 }
 
 func params(thorough bool) tierParams {
 	if thorough {
-		return tierParams{ns: []int{3, 4, 5, 6, 7, 8, 9, 10}, seeds: 2, supBound: 2, supRev: true, sweepN: 20000, faultNs: []int{3, 4, 5},
+		return tierParams{ns: []int{3, 4, 5, 6, 7, 8, 9, 10}, seeds: 2, supBound: 2, supRev: true, sweepN: 20000, faultNs: []int{3, 4, 5}, reloadNs: []int{3, 4, 5, 6, 7, 8, 9, 10}, reloadSeeds: 150,
 			genBound: func(int) int { return 1 },
 			msgsFor:  func(int, int) []int { return []int{0, 1} }}
 	}
 	// quick: the largest group uses one message per seed set and pins the collectors' map
 	// iteration to the insertion order (their arrival orders are still all enumerated)
-	return tierParams{ns: []int{3, 4, 5, 6, 10}, seeds: 2, supBound: 1, supRev: false, sweepN: 600, faultNs: []int{3, 4},
+	return tierParams{ns: []int{3, 4, 5, 6, 10}, seeds: 2, supBound: 1, supRev: false, sweepN: 600, faultNs: []int{3, 4}, reloadNs: []int{3, 5, 10}, reloadSeeds: 60,
 		genBound: func(n int) int {
 			if n >= 8 {
 				return 0
@@ -1388,6 +1491,41 @@ func run(c *fw.Ctx) {
 			}
 		}
 		c.Count("cpu_ms_round1-fault", cpuMs()-t0)
+	}
+
+	// --- R. persistence sweep: many DKG instances (so that the members' share sums fall on both sides of
+	// the order and of 2^256), keys stored + reloaded, then the whole property for one message
+	{
+		t0 := cpuMs()
+		var cls [3]int64
+		var inst int64
+		for t := 0; t < tp.reloadSeeds; t++ {
+			for _, n := range tp.reloadNs {
+				if !mine() || expired() {
+					continue
+				}
+				g := setup(n, 2000+t, "hash")
+				for _, r := range g.setupBad {
+					k := g.kase("reload-sweep", 0)
+					c.Outcome("VIOLATION " + r.sig)
+					c.Violation(r.sig, "reload-sweep", r.msg, k)
+				}
+				for x := range cls {
+					cls[x] += g.sumClass[x]
+				}
+				inst++
+				if !g.ready() {
+					continue
+				}
+				ks := g.kase("reload-sweep", 0)
+				record(c, g, ks, nil, execCase(g, &ks, nil))
+			}
+		}
+		c.Count("cpu_ms_reload-sweep", cpuMs()-t0)
+		c.Count("reload_dkg_instances", inst)
+		c.Count("reload_members_share_sum_below_order", cls[0])
+		c.Count("reload_members_share_sum_in_order_to_2^256", cls[1])
+		c.Count("reload_members_share_sum_in_2^256_to_2order", cls[2])
 	}
 
 	// --- S. message sweep: the whole property for two small groups over many messages
@@ -1612,6 +1750,7 @@ func main() {
 			"(dkg arrival order per member | share pairing check | RecoverGroupSignature on a map of s>=k shares | model.GroupSignGenerator | round1 groupSignGenerator | " +
 			"one set of share objects reused over consecutive recoveries of every k-subset, its supersets and both collectors, then re-verified | " +
 			"message sweep: the whole property for a fixed small group and one counter message | " +
+			"persistence sweep: one DKG instance (many dealer seed sets) whose key material went through the joined-group store and back, then the whole property | " +
 			"round1.Update fed the honest pieces of a subset of >= k members in an arrival order plus ONE piece that must not count (good block share + bad beacon share | bad block + good beacon | both bad | duplicate) from a member inside or outside the subset at every position | " +
 			"production call sites that size a collector themselves: createGroupContext (parent size, candidate count), round1.Start, group public key collector, DKG context with a larger candidate list) " +
 			"x ordered member subset x explorer choice sequence (which k iteration positions the random selection keeps, start slot of every map iteration). " +
